@@ -105,6 +105,53 @@ def gen_case(pyrng, present, nmax=12, force=None):
     return c
 
 
+def gen_mixed_batch(pyrng, nmax=10):
+    """a batch of start vectors for one operator in which exactly one element lies in a low-dimensional invariant subspace
+    (breakdown) and the others are generic, in either order, with max_iters below n: the factorisation of an element must not
+    depend on the rest of the batch"""
+    g = np.random.default_rng(pyrng.getrandbits(64))
+    cplx = bool(g.random() < 0.4)
+    n = int(g.integers(5, max(6, nmax + 1)))
+    r = int(g.integers(2, n - 2))
+    U = rand_unitary(g, n, cplx)
+    c = dict(kind="dense", cplx=cplx)
+    if g.random() < 0.6:
+        Tm = rnd(g, (n, n), cplx) + 2.0 * np.eye(n)
+        Tm[r:, :r] = 0
+        M = U @ Tm @ U.conj().T
+        c["blocktri"] = r
+    else:
+        lam = np.sort(g.uniform(0.5, 1.0, n)) + np.arange(n)
+        M = herm((U * lam) @ U.conj().T)
+        c["normal"] = "symmetric"
+    if not cplx:
+        M = M.real
+    nb = int(g.integers(2, 4))
+    pos = int(g.integers(0, nb))
+    vs, grades = [], []
+    for b in range(nb):
+        if b == pos:
+            v = U[:, :r] @ rnd(g, (r,), cplx) if "blocktri" in c else U[:, g.choice(n, size=r, replace=False)] @ (g.uniform(0.5, 2.0, r) * g.choice([-1, 1], r))
+            grades.append(r)
+        else:
+            v = rnd(g, (n,), cplx); grades.append(n)
+        vs.append(v if cplx else np.real(v))
+    c.update(parts=[enc(M)], n=n, start="mixed", batch=nb, grades=grades, v=enc(np.stack(vs, 0)),
+             max_iters=int(g.integers(r + 1, n)), tol=float(g.choice([1e-7, 1e-6, 1e-3])), entry="arnoldi")
+    return c
+
+
+def coq_elem_cases(c, obs):
+    """one single-start Coq case per batch element (element b of the batched call against the run on v_b alone)"""
+    S = dense_of(c)
+    V = dec(c["v"])
+    out = []
+    for b in range(len(obs["Q"])):
+        el = "(" + coq_mat(dec(obs["Q"][b])) + "," + coq_mat(dec(obs["H"][b])) + ")"
+        out.append(f"mk_acase {c['n']} {coq_mat(S)} {coq_mat(V[b:b + 1])} {c['max_iters']} {hexf(c['tol'])} [{el}]")
+    return out
+
+
 def in_avoided_region(c, present):
     cap = min(c["max_iters"], c["n"])
     exact0 = c["kind"] == "diag" and c["start"] == "invariant"
@@ -304,6 +351,11 @@ def oracle(c, obs, present=frozenset()):
             ambiguous = True
         if a > cap:
             bad.append(tag + f"{a} Arnoldi steps, more than min(max_iters, n) = {cap}")
+        # the iteration may stop before the cap only when the remainder has fallen to tol*H[1,0]
+        done = int(np.sum(np.abs(H).max(axis=0) > 0)) if m > 0 else 0
+        if 1 <= done < cap and sd[done - 1] > 2.0 * c["tol"] * sd[0] + 1e-6 * scale:
+            bad.append(tag + f"only {done} of min(max_iters,n)={cap} Arnoldi steps although the last remainder is {sd[done - 1]:.3g} "
+                             f"(H[1,0]={sd[0]:.3g}, tol={c['tol']}): truncated factorisation, A Q[:, :m] = Q H fails")
         # orthonormality of the columns whose sub-diagonal entry exceeds the tolerance
         Qa = Q[:, :a + 1]
         loss = np.abs(Qa.conj().T @ Qa - np.eye(a + 1)).max()
